@@ -55,10 +55,14 @@ def tasks(tier, seed):
                 if not lpchecks.admissible(I, s):
                     continue
                 forms = ['noexc', 'feas'] + (['valid'] if len(s) <= 1 else [])
+                if lpchecks.is_wide(I):
+                    forms = ['noexc', 'valid'] + (['feas'] if not flags and not any(c_ in ('lmb', 'lsb', 'mincostlsb') for c_, _ in s) else [])
+                    if len(s) > 1 and rng.random() < 0.7:
+                        continue
                 out.append({'prop': ID, 'shape': lpchecks.shape_data(I), 'flags': flags, 'seq': s,
                             'forms': forms, 'wf': True})
             # multipliers of the cost criteria as SYMBOLIC integers >= 0 (bound adequacy for all multipliers)
-            for s in ([('mincost', ['sym', 'sym'])], [('minsqcost', ['sym', 'sym'])], [('mincostlsb', ['sym', 2])],
+            for s in [] if lpchecks.is_wide(I) else ([('mincost', ['sym', 'sym'])], [('minsqcost', ['sym', 'sym'])], [('mincostlsb', ['sym', 2])],
                       [('maxsize', []), ('mincost', ['sym', 'sym'])], [('mincostlsb', ['sym', 1]), ('minsqcost', ['sym', 'sym'])]):
                 out.append({'prop': ID, 'shape': lpchecks.shape_data(I), 'flags': flags, 'seq': s,
                             'forms': ['noexc', 'feas', 'valid'], 'wf': True, 'symmult': True})
